@@ -258,4 +258,35 @@ theorem C17_code_lammps_no_partial (pots : List PotRec) (minr maxr : Rat) (n : I
   exact C17_buffered _ k hk hkn
 
 
+open Atsim.Gen.Logic in
+/-- **code tie (the tabulation objects' `write` methods)**: each hands the destination one chunk holding the complete table, or nothing when it raises -/
+theorem C17_code_tabulation_objects (t : TabRec) (e : EamTabRec) (d : List (List Tok)) :
+    lammps_tab_write_writes t d = d ++ [lammps_tab_write t []] ∧
+    (dlpoly_tab_write_writes t d = match dlpoly_tab_write t [] with | .ok s => d ++ [s] | .error _ => d) ∧
+    setfl_tab_write_writes e d = d ++ [setfl_tab_write e []] ∧
+    setfl_fs_tab_write_writes e d = d ++ [setfl_fs_tab_write e []] ∧
+    tabeam_tab_write_writes e d = d ++ [tabeam_tab_write e []] ∧
+    (tabeam_fs_tab_write_writes e d = match tabeam_fs_tab_write e [] with | .ok s => d ++ [s] | .error _ => d) ∧
+    adp_tab_write_writes e d = d ++ [adp_tab_write e []] := by
+  refine ⟨?_, ?_, ?_, ?_, ?_, ?_, ?_⟩
+  · simp only [lammps_tab_write_writes, lammps_tab_write]
+    exact C17_code_lammps _ _ _ _ _
+  · simp only [dlpoly_tab_write_writes, dlpoly_tab_write]
+    rw [C17_code_dlpoly]
+    cases dlpoly_write_potentials t.potentials t.cutoff t.nr [] with
+    | error err => rfl
+    | ok v => rfl
+  · simp only [setfl_tab_write_writes, setfl_tab_write]
+    exact C17_code_setfl _ _ _ _ _ _ _ _ _
+  · simp only [setfl_fs_tab_write_writes, setfl_fs_tab_write]
+    exact C17_code_setfl_fs _ _ _ _ _ _ _ _ _
+  · simp only [tabeam_tab_write_writes, tabeam_tab_write]
+    exact C17_code_tabeam _ _ _ _ _ _ _ _
+  · simp only [tabeam_fs_tab_write_writes, tabeam_fs_tab_write]
+    rw [C17_code_tabeam_fs]
+    cases tabeam_write_fs e.nrho (eamtab_drho e) e.nr (eamtab_dr e) e.eam_potentials e.potentials [] "" with
+    | error err => rfl
+    | ok v => rfl
+  · simp only [adp_tab_write_writes, adp_tab_write, List.nil_append]
+
 end Atsim.C17
